@@ -41,6 +41,8 @@ def run(tier):
         for r in rp.finish():
             if "machinery" in r:
                 raise Machinery(r["machinery"])
+            for sig_, b_ in r.get("fails", ()):
+                chk.violation(sig_, b_)
             if r.get("trace"):
                 traces.append(r["trace"])
                 chk.count(r["n"], r["keys"])
